@@ -56,7 +56,7 @@ BOUND = {
 }
 REQUIRED_CLASSES = [
     'out_float64', 'out_float32', 'int_operand_ok', 'int32_ok', 'int32_dtype_error', 'nan_expected', 'finite_inelastic',
-    'out_of_domain_single', 'binned_ok', 'broadcast_ok', 'unit_mismatch_refused', 'path_orthogonal', 'path_generic', 'fallback_int_point',
+    'out_of_domain_single', 'binned_ok', 'broadcast_ok', 'history_single_precision_first', 'history_double_precision_first', 'unit_mismatch_refused', 'path_orthogonal', 'path_generic', 'fallback_int_point',
     'same_point_int', 'geom_ok', 'propagate_ok',
 ]
 
@@ -272,7 +272,21 @@ def _run_tof(case, rec):
     names = [a for a, _ in spec['args']]
     kinds = dict(spec['args'])
     out_unit = sc.Unit(_tof_out_unit(kernel, units))
-    for dts in dtype_grid(len(names), tier):
+    # call-history dimension: fresh module state (reload), then the dtype grid in its natural order (double first) for
+    # half of the unit combinations and single precision first for the other half, so that a result depending on which
+    # precision was converted first for a unit (e.g. a memoised converted constant) is judged in both orders
+    import importlib
+    import zlib
+
+    importlib.reload(K)
+    fn = getattr(K, kernel)
+    grid = list(dtype_grid(len(names), tier))
+    if zlib.crc32(repr(sorted(units.items())).encode()) % 2:
+        grid.sort(key=lambda dts: 0 if dts[0] == 'float32' else 1)
+        rec.cls('history_single_precision_first')
+    else:
+        rec.cls('history_double_precision_first')
+    for dts in grid:
         dmap = dict(zip(names, dts, strict=True))
         built = {a: arg_value(kernel, a, kinds[a], units[a], dmap[a]) for a in names}
         kw = {a: scalar(built[a][0], units[a], dmap[a]) for a in names}
@@ -735,3 +749,27 @@ def run_case(case, rec):
         _run_chopper(case, rec)
     else:
         raise ValueError(fam)
+
+
+# ---------------------------------------------------------------------------------------
+# layout / reuse exploration shared by the kernel properties (props/layouts.py): every combination of operand layouts
+# (0-d, 1-d over either of two dims, 2-d, 2-d transposed) must equal the element-wise 0-d calls, also after every operand
+# has been overwritten in place and the kernel is called again.
+
+from props import layouts as _layouts  # noqa: E402
+
+_LAYOUT_SITES = ['tof.chopper_cascade.propagate_times', 'tof.chopper_cascade.wavelength_to_inverse_velocity', 'conversion.tof.time_at_sample_from_tof']
+_cases_main, _run_case_main = cases, run_case
+RULE = RULE + ' Layout cases: every combination of operand layouts (0d / 1-d a / 1-d b / 2-d ab / 2-d stored ba) per kernel x unit-dtype variant, each followed by an in-place update of all operands and a second call.'
+REQUIRED_CLASSES = [*REQUIRED_CLASSES, 'layout_ok', 'reuse_after_inplace_update_ok', 'layout_transposed_operand', 'repeat_call_identical']
+
+
+def cases(tier):
+    return _cases_main(tier) + _layouts.cases_for(_LAYOUT_SITES, variants=(0, 1, 2, 3, 4) if tier == 'thorough' else (0, 1, 3))
+
+
+def run_case(case, rec):
+    if case.get('kind') == 'layout':
+        _layouts.run_layout_case(case, rec)
+    else:
+        _run_case_main(case, rec)
